@@ -1244,6 +1244,11 @@ class Interp:
         # objects with operator methods
         if isinstance(a, AObj) or isinstance(b, AObj):
             return self.obj_binop(t, a, b, lineno)
+        # ndarray (op) python list / tuple of numbers: numpy converts the sequence (np.asarray) and broadcasts
+        if is_arraylike(a) and isinstance(b, (list, tuple)) and b and all(isinstance(x, (Rat, bool, int)) for x in b):
+            b = Box(A.list_to_arr(list(b)))
+        elif is_arraylike(b) and isinstance(a, (list, tuple)) and a and all(isinstance(x, (Rat, bool, int)) for x in a):
+            a = Box(A.list_to_arr(list(a)))
         if isinstance(a, ASparse) or isinstance(b, ASparse):
             return self.sparse_binop(t, a, b)
         if isinstance(a, Rat) and isinstance(b, Rat):
@@ -1354,6 +1359,10 @@ class Interp:
             return ASparse([dict(en, scale=en.get('scale', ONE) * f) for en in a.entries], a.shape, a.issues)
         if isinstance(b, ASparse) and isinstance(a, Rat) and t is ast.Mult:
             return ASparse([dict(en, scale=en.get('scale', ONE) * a) for en in b.entries], b.shape, b.issues)
+        other = b if isinstance(a, ASparse) else a
+        if isinstance(other, (list, tuple, dict, str)) or other is None or isinstance(other, (AObj, AFuncRef, OpaqueFn, AForeign)):
+            # scipy returns NotImplemented for operands that are neither sparse, scalar nor ndarray; python then raises
+            raise AbstractRaise('TypeError', f"unsupported operand type(s) for sparse arithmetic: 'csr_array' and '{type(other).__name__}'")
         raise AnalysisError("unsupported sparse arithmetic")
 
     # -- subscripts
